@@ -559,10 +559,17 @@ def loadWith (loadImp : Str → Str → Res Rule) : Sheet → Res Sheet
     | .error e => ⟨.error e, b.log⟩
     | .ok q => ⟨.ok (r :: q), b.log⟩
 
-mutual
+/-- an `@import` met while a sheet's text is parsed: `_setHref` runs when the rule is parsed (`attempt`) and, if
+the target was not found, once more when the rule is inserted (`cssstylesheet.py:880-882`) — the same call with the
+same fetcher answers, so the same outcome; the fetcher is called again -/
+def twice (attempt : Res Rule) : Res Rule :=
+  match attempt.val with
+  | .ok (.imp _ _ false _ _) => ⟨attempt.val, attempt.log ++ attempt.log⟩
+  | _ => attempt
+
 /-- `CSSImportRule._setHref` (`cssimportrule.py:273-346`) for a rule whose parent sheet has the hrefs `chain`
 (own href first, then the sheets it is imported from) and the fetcher `who`.
-`fuel` bounds the import depth; `Props/C19` shows that `vfs.length + 1` is never used up. -/
+`fuel` bounds the import depth (`vfs.length + 2` is what the callers give). -/
 def setHref (fuel : Nat) (vfs : Vfs) (who : Who) (chain : List Str) (href media : Str) : Res Rule :=
   match fuel with
   | 0 => ⟨.error .unsupported, []⟩
@@ -578,23 +585,15 @@ def setHref (fuel : Nat) (vfs : Vfs) (who : Who) (chain : List Str) (href media 
           match vfsLookup vfs full with                     -- :311 _resolveImport -> fetcher(url)
           | none => ⟨.ok (notLoaded href media), [(who, full)]⟩        -- :315-317, :335
           | some raw =>
-            let r := loadWith (parseImp fuel vfs who (full :: chain)) raw      -- :329-333
+            -- :329-333 the text is parsed; its own @imports are loaded as it goes
+            let r := loadWith (fun h m => twice (setHref fuel vfs who (full :: chain) h m)) raw
             match r.val with
             | .error _ => ⟨.error .unsupported, (who, full) :: r.log⟩
             | .ok rules => ⟨.ok (.imp href media true full rules), (who, full) :: r.log⟩   -- :344
-/-- an `@import` met while a sheet's text is parsed: `_setHref` runs when the rule is parsed and, if the target
-was not found, once more when the rule is inserted (`cssstylesheet.py:880-882`) -/
+
+/-- an `@import` of the sheet that is being parsed -/
 def parseImp (fuel : Nat) (vfs : Vfs) (who : Who) (chain : List Str) (href media : Str) : Res Rule :=
-  match fuel with
-  | 0 => ⟨.error .unsupported, []⟩
-  | fuel + 1 =>
-    let a := setHref (fuel + 1) vfs who chain href media
-    match a.val with
-    | .ok (.imp _ _ false _ _) =>
-      let b := setHref (fuel + 1) vfs who chain href media
-      ⟨b.val, a.log ++ b.log⟩
-    | _ => a
-end
+  twice (setHref fuel vfs who chain href media)
 
 /-- `parser.parseString(text, href=href)` with `fetcher`: the loaded rule tree and the fetcher calls -/
 def parseSheet (vfs : Vfs) (href : Str) (raw : Sheet) : Res Sheet :=
